@@ -4,10 +4,11 @@ From VQ Require Import Model.Inventory.
 From VQ.Gen Require Import inv_cosine.
 Import ListNotations.
 Open Scope string_scope.
-Lemma pin_inv_cosine : inv_cosine =
+Definition pinned_inv_cosine : list (string * kind * bool) :=
   [("cluster_size", Buffer, true);
    ("embed", Buffer, true);
    ("embed", Param, true);
    ("embed_avg", Buffer, true);
    ("initted", Buffer, true)].
+Lemma pin_inv_cosine : inv_cosine = pinned_inv_cosine.
 Proof. reflexivity. Qed.
